@@ -43,7 +43,10 @@ func (c *Ctx) query(o *Obligation, wantModel bool, dropQuant bool) string {
 		b.WriteString(d)
 		b.WriteByte('\n')
 	}
-	for _, a := range c.asserts[:o.Pos] {
+	for i, a := range c.asserts[:o.Pos] {
+		if lb, ok := c.opaque[i]; ok && !hasTag(o.Reveal, lb) {
+			continue // opaque assumption not revealed to this obligation (dropping an assumption is sound)
+		}
 		if dropQuant && hasQuant(a) {
 			continue // dropping an assumption only weakens what is known: 'unsat' stays sound
 		}
